@@ -220,10 +220,37 @@ def check_ym(acc, pendulum, y, mo, rest, n):
         acc.mismatch("mul", "years-months", case, got, want)
 
 
+FLOAT_BUILT = [{"seconds": 1 / 3}, {"seconds": 0.1234567}, {"microseconds": 0.25}, {"hours": 1, "microseconds": 0.375},
+               {"minutes": 0.1}, {"days": 0.5, "microseconds": 0.6}, {"milliseconds": 0.0015}, {"seconds": -2 / 3},
+               {"weeks": 0.1, "seconds": 0.0000004}, {"hours": -0.3333333}, {"seconds": 1.0000005}, {"microseconds": -0.5}]
+
+
+def check_float_built(acc, pendulum, kw):
+    """Operands built from fractional unit values: the constructor rounds to whole microseconds once (like timedelta);
+    every later operation starts from that rounded length."""
+    d, t = pendulum.Duration(**kw), dt_.timedelta(**kw)
+    h, th = pendulum.duration(**kw), t
+    case = {"kind": "fb", "kw": kw}
+    _compare(acc, pendulum, "construct", "float-arguments", case, lambda: d, lambda: t, "Duration")
+    for n in (1, 2, 3, 4, 8, 10, -3, 7, 1000, 0.5, 2.5):
+        c2 = dict(case, n=n)
+        for lbl, dd in (("class", d), ("helper", h)):
+            _compare(acc, pendulum, "mul", f"float-built/{lbl}", c2, lambda: dd * n, lambda: t * n, "Duration")
+            _compare(acc, pendulum, "mul", f"float-built/reflected/{lbl}", c2, lambda: n * dd, lambda: n * t, "Duration")
+            _compare(acc, pendulum, "truediv", f"float-built/{lbl}", c2, lambda: dd / n, lambda: t / n, "Duration")
+            if isinstance(n, int):
+                _compare(acc, pendulum, "floordiv", f"float-built/{lbl}", c2, lambda: dd // n, lambda: t // n, "Duration")
+    for other in (dt_.timedelta(microseconds=1), dt_.timedelta(seconds=1, microseconds=3)):
+        _compare(acc, pendulum, "add", "float-built", case, lambda: d + other, lambda: t + other, "Duration")
+        _compare(acc, pendulum, "sub", "float-built", case, lambda: d - other, lambda: t - other, "Duration")
+        _compare(acc, pendulum, "mod", "float-built", case, lambda: d % other, lambda: t % other, "Duration")
+    _compare(acc, pendulum, "neg", "float-built", case, lambda: -d, lambda: -t, "Duration")
+
+
 def run_shard(shard):
     import pendulum
     acc = core.Acc(ID)
-    vals = shard["values"]
+    vals = shard.get("values", [])
     if shard["kind"] == "pairs":
         for a in shard["left"]:
             for b in vals:
@@ -243,6 +270,13 @@ def run_shard(shard):
                 if isinstance(n, int) and n and (2 * a) % n == 0 and a % n:
                     acc.c["nontrivial"] += 1
         acc.sample({"a_us": shard["left"][0], "numbers": shard["nums"][:6]})
+    elif shard["kind"] == "floatbuilt":
+        for kw in FLOAT_BUILT:
+            acc.c["states"] += 1
+            acc.c["nontrivial"] += 1
+            with worker.guarded(acc, "arith", {"kind": "fb", "kw": kw}):
+                check_float_built(acc, pendulum, kw)
+        acc.sample({"float_built_operands": FLOAT_BUILT[:4]})
     else:
         for y in (0, 1, -2):
             for mo in (0, 1, -11, 13):
@@ -256,7 +290,9 @@ def run_shard(shard):
 def replay_case(case, acc):
     import pendulum
     k = case["kind"]
-    if k == "pair":
+    if k == "fb":
+        check_float_built(acc, pendulum, case["kw"])
+    elif k == "pair":
         check_pair(acc, pendulum, case["a"], case["b"])
     elif k == "un":
         check_unary_num(acc, pendulum, case["a"], [])
@@ -278,6 +314,7 @@ def plan(tier, seed):
     shards = [{"kind": "pairs", "left": ch, "values": vals} for ch in chunks(vals, 16)]
     shards += [{"kind": "nums", "left": ch, "values": vals, "nums": nums} for ch in chunks(vals, 8)]
     shards.append({"kind": "ym", "values": vals})
+    shards.append({"kind": "floatbuilt"})
     return [({"ext": 1, "tz": "sys"}, shards)]
 
 
